@@ -3,6 +3,7 @@
 // Floats cross the boundary as 16-hex-digit bit patterns.
 mod util;
 mod c01;
+mod c09;
 mod c12;
 mod c14;
 mod c16;
@@ -19,6 +20,7 @@ fn dispatch(case: &Value) -> Value {
     let p = k.split('.').next().unwrap_or("");
     match p {
         "c01" => c01::run(k, case),
+        "c09" => c09::run(k, case),
         "c12" => c12::run(k, case),
         "c14" => c14::run(k, case),
         "c16" => c16::run(k, case),
